@@ -39,7 +39,7 @@ def count_obligations(unit, mode):
     return names
 
 
-def conclude(pid, spec, results, tier, seed, wall):
+def conclude(pid, spec, results, tier, seed, wall, kani=()):
     known = findings.load()
     undecided = []
     violations = []
@@ -98,6 +98,25 @@ def conclude(pid, spec, results, tier, seed, wall):
                     continue
                 violations.append((r, d, key))
                 failed_obl.add('%s [%s] %s' % (fn, r.mode, key.get('clause') or 'safety'))
+    # --- Kani steps
+    kani_obl = []
+    kani_viol = []
+    for k in kani:
+        js = k.get('json') or {}
+        hs = js.get('harnesses', {})
+        if k['rc'] == 2 or not hs:
+            undecided.append('kani script %s: tool problem / anchor lost: %s' % (k['script'], k['stdout'][-300:]))
+            continue
+        for h, r in hs.items():
+            name = '%s::%s [kani, loop-free, full domain]' % (k['script'], h)
+            kani_obl.append(name)
+            checker_cmds.append(r.get('cmd', 'cargo kani --harness ' + h))
+            if r.get('failed'):
+                kani_viol.append((k, h, r))
+                failed_obl.add(name)
+            elif not r.get('ok'):
+                undecided.append('kani harness %s did not finish' % h)
+    all_obl += kani_obl
     rc = 0
     out_lines = []
     for (kid, what, fn), k in sorted(known_hit.items()):
@@ -112,6 +131,15 @@ def conclude(pid, spec, results, tier, seed, wall):
             found = replay.has_input(path)
             out_lines.append('VIOLATION property=%s replay=%s%s' % (pid, path, '' if found else ' no-failing-input-found'))
         rc = 1
+    for k, h, r in kani_viol:
+        os.makedirs(REPLAYS, exist_ok=True)
+        path = os.path.join(REPLAYS, '%s-kani-%s.json' % (pid, h))
+        with open(path, 'w') as f:
+            json.dump({'property': pid, 'obligation': {'kani_harness': h, 'script': k['script']}, 'verifier': 'kani',
+                       'verifier_cmd': r.get('cmd'), 'verifier_output': k['stdout'], 'input': None}, f, indent=1)
+        out_lines.append('VIOLATION property=%s replay=%s no-failing-input-found' % (pid, path))
+        rc = 1
+        violations.append((None, None, {'fn': h}))
     if undecided:
         for u in undecided:
             out_lines.append('UNDECIDED property=%s %s' % (pid, u))
@@ -136,7 +164,7 @@ def conclude(pid, spec, results, tier, seed, wall):
             'samples': all_obl[:6] + all_obl[-3:],
             'functions_under_contract': sorted(fn_under_contract),
             'function_body_sha256': {k: v['sha256'] for k, v in sorted(fn_under_contract.items())},
-            'backends': {'verus': n_obl},
+            'backends': {'verus': n_obl - len(kani_obl), 'kani': len(kani_obl)},
             'solver_ms': solver_ms,
             'units': [{'unit': r.unit, 'mode': r.mode, 'verified_fns': r.verified, 'errors': r.errors,
                        'wall_s': round(r.wall_s, 1)} for r in results],
